@@ -79,15 +79,16 @@ def sumN [Zero K] [Add K] : Nat → (Nat → K) → K
   | 0, _ => 0
   | n + 1, f => sumN n f + f n
 
-/-- materialise a vector: `tab1 n f i = f i` for `i < n`, `0` outside -/
-def tab1 [Zero K] (n : Nat) (f : Nat → K) : Nat → K :=
-  let a := Array.ofFn (n := n) (fun i => f i.val)
-  fun i => a.getD i 0
+/-- materialised vectors / matrices (arrays, so that the recursions below share their intermediate results) -/
+abbrev Vec (K : Type) := Array K
+abbrev Mat (K : Type) := Array (Array K)
 
-/-- materialise a matrix -/
-def tab2 [Zero K] (m n : Nat) (f : Nat → Nat → K) : Nat → Nat → K :=
-  let a := Array.ofFn (n := m) (fun i => Array.ofFn (n := n) (fun j => f i.val j.val))
-  fun i j => (a.getD i #[]).getD j 0
+/-- `(mkVec n f).get i = f i` for `i < n`, `0` outside -/
+def mkVec (n : Nat) (f : Nat → K) : Vec K := Array.ofFn (n := n) (fun i => f i.val)
+def Vec.get [Zero K] (v : Vec K) (i : Nat) : K := v.getD i 0
+
+def mkMat (m n : Nat) (f : Nat → Nat → K) : Mat K := mkVec m (fun i => mkVec n (f i))
+def Mat.get [Zero K] (E : Mat K) (i j : Nat) : K := Vec.get (E.getD i #[]) j
 
 /-- Kronecker delta -/
 def delta [Zero K] [One K] (i j : Nat) : K := if i = j then 1 else 0
@@ -113,25 +114,26 @@ abbrev Config := List (Nat × Nat)
 variable [Zero K] [One K] [Add K] [Mul K]
 
 /-- row vector times the matrix `A[s,t]` -/
-def stepV (v : Nat → K) (A : Site K) (s t : Nat) : Nat → K :=
-  tab1 A.Dr (fun r => sumN A.Dl (fun l => v l * A.a s t l r))
+def stepV (v : Vec K) (A : Site K) (s t : Nat) : Vec K :=
+  mkVec A.Dr (fun r => sumN A.Dl (fun l => v.get l * A.a s t l r))
 
 /-- propagate a boundary vector through the chain along the configuration `c` (missing entries read as `(0,0)`) -/
-def run : List (Site K) → Config → (Nat → K) → (Nat → K)
+def run : List (Site K) → Config → Vec K → Vec K
   | [], _, v => v
   | A :: As, c, v => run As c.tail (stepV v A (c.headD (0, 0)).1 (c.headD (0, 0)).2)
 
-/-- unit vector `e_α` -/
-def unitV (α : Nat) : Nat → K := fun i => delta i α
+/-- unit vector `e_α` of dimension `D` -/
+def unitV (D α : Nat) : Vec K := mkVec D (fun i => delta i α)
 
 /-- coefficient without `factor` (open boundaries) -/
-def coef (ψ : State K) (c : Config) : K := run ψ.sites c (unitV 0) 0
+def coef (ψ : State K) (c : Config) : K := (run ψ.sites c (unitV 1 0)).get 0
 
 /-- first left bond dimension (the traced bond of a periodic MPO) -/
 def firstDl (ψ : State K) : Nat := match ψ.sites with | [] => 1 | A :: _ => A.Dl
 
 /-- coefficient of a periodic MPO: trace closure over the boundary bond -/
-def coefPbc (ψ : State K) (c : Config) : K := sumN (firstDl ψ) (fun α => run ψ.sites c (unitV α) α)
+def coefPbc (ψ : State K) (c : Config) : K :=
+  sumN (firstDl ψ) (fun α => (run ψ.sites c (unitV (firstDl ψ) α)).get α)
 
 /-- the represented amplitude: `to_tensor()[c]` -/
 def amp (ψ : State K) (c : Config) : K :=
@@ -149,7 +151,7 @@ def configs : List (Nat × Nat) → List Config
 def toVecSpec (ψ : State K) : List K := (configs (dims ψ)).map (amp ψ)
 
 /-- dense vector with shared prefixes (what the driver evaluates; `toVec_eq_spec` in the proofs) -/
-def vecFrom : List (Site K) → (Nat → K) → (fin : (Nat → K) → K) → List K
+def vecFrom : List (Site K) → Vec K → (fin : Vec K → K) → List K
   | [], v, fin => [fin v]
   | A :: As, v, fin =>
     (List.range A.dk).flatMap (fun s => (List.range A.db).flatMap (fun t => vecFrom As (stepV v A s t) fin))
@@ -161,8 +163,9 @@ def addV : List K → List K → List K
 
 def toVec (ψ : State K) : List K :=
   if ψ.periodic then
-    ((List.range (firstDl ψ)).foldl (fun acc α => addV acc (vecFrom ψ.sites (unitV α) (fun v => v α))) []).map (ψ.factor * ·)
-  else (vecFrom ψ.sites (unitV 0) (fun v => v 0)).map (ψ.factor * ·)
+    ((List.range (firstDl ψ)).foldl
+      (fun acc α => addV acc (vecFrom ψ.sites (unitV (firstDl ψ) α) (fun v => v.get α))) []).map (ψ.factor * ·)
+  else (vecFrom ψ.sites (unitV 1 0) (fun v => v.get 0)).map (ψ.factor * ·)
 
 /-- dense matrix of an MPO: rows = ket configurations, columns = bra configurations -/
 def toMat (ψ : State K) : List (List K) :=
@@ -298,25 +301,25 @@ def product (nrPhys : Nat) (vs : List (Nat × Nat × (Nat → Nat → K))) : Sta
 variable [HasConj K]
 
 /-- `Env2.update_env_to_last`: `E'(b',k') = Σ conj(B[s,t](b,b')) E(b,k) K[s,t](k,k')` -/
-def envStepL (B Kt : Site K) (E : Nat → Nat → K) : Nat → Nat → K :=
-  tab2 B.Dr Kt.Dr (fun b' k' =>
+def envStepL (B Kt : Site K) (E : Mat K) : Mat K :=
+  mkMat B.Dr Kt.Dr (fun b' k' =>
     sumN B.dk (fun s => sumN B.db (fun t => sumN B.Dl (fun b => sumN Kt.Dl (fun k =>
-      HasConj.conj (B.a s t b b') * (E b k * Kt.a s t k k'))))))
+      HasConj.conj (B.a s t b b') * (E.get b k * Kt.a s t k k'))))))
 
-def envL : List (Site K) → List (Site K) → (Nat → Nat → K) → (Nat → Nat → K)
+def envL : List (Site K) → List (Site K) → Mat K → Mat K
   | B :: Bs, Kt :: Ks, E => envL Bs Ks (envStepL B Kt E)
   | _, _, E => E
 
 /-- `Env2.update_env_to_first`: `E'(k,b) = Σ K[s,t](k,k') E(k',b') conj(B[s,t](b,b'))` -/
-def envStepR (B Kt : Site K) (E : Nat → Nat → K) : Nat → Nat → K :=
-  tab2 Kt.Dl B.Dl (fun k b =>
+def envStepR (B Kt : Site K) (E : Mat K) : Mat K :=
+  mkMat Kt.Dl B.Dl (fun k b =>
     sumN B.dk (fun s => sumN B.db (fun t => sumN Kt.Dr (fun k' => sumN B.Dr (fun b' =>
-      Kt.a s t k k' * (E k' b' * HasConj.conj (B.a s t b b')))))))
+      Kt.a s t k k' * (E.get k' b' * HasConj.conj (B.a s t b b')))))))
 
 /-- right environment of the given suffixes, starting from the identity on the last bond -/
-def envR : List (Site K) → List (Site K) → (Nat → Nat → K)
+def envR : List (Site K) → List (Site K) → Mat K
   | B :: Bs, Kt :: Ks => envStepR B Kt (envR Bs Ks)
-  | _, _ => delta
+  | _, _ => mkMat 1 1 delta
 
 /-- bond dimension to the left of site `n` (`n = N`: right of the last site) -/
 def bondDim (sites : List (Site K)) (n : Nat) : Nat :=
@@ -327,41 +330,43 @@ def bondDim (sites : List (Site K)) (n : Nat) : Nat :=
 /-- `Env2.measure(bd=(n-1,n))`: close left and right environments on the bond left of site `n`, times the factors
 (the code multiplies `bra.factor` un-conjugated) -/
 def overlapAt (n : Nat) (bra ket : State K) : K :=
-  let L := envL (bra.sites.take n) (ket.sites.take n) delta
+  let L := envL (bra.sites.take n) (ket.sites.take n) (mkMat 1 1 delta)
   let R := envR (bra.sites.drop n) (ket.sites.drop n)
   bra.factor * ket.factor *
-    sumN (bondDim bra.sites n) (fun b => sumN (bondDim ket.sites n) (fun k => L b k * R k b))
+    sumN (bondDim bra.sites n) (fun b => sumN (bondDim ket.sites n) (fun k => L.get b k * R.get k b))
 
 /-- `measure_overlap(bra, ket)` = `Env2.measure(bd=(-1, N))`: sweep the left environment through all sites -/
 def overlap (bra ket : State K) : K := overlapAt bra.sites.length bra ket
 
 /-- flattened pair index for the (op, ket) bonds of three-layer environments -/
-def env3StepL (B W Kt : Site K) (E : Nat → Nat → K) : Nat → Nat → K :=
-  tab2 B.Dr (W.Dr * Kt.Dr) (fun b' ok' =>
+def env3StepL (B W Kt : Site K) (E : Mat K) : Mat K :=
+  mkMat B.Dr (W.Dr * Kt.Dr) (fun b' ok' =>
     sumN B.dk (fun s => sumN W.db (fun t => sumN B.db (fun x =>
       sumN B.Dl (fun b => sumN W.Dl (fun o => sumN Kt.Dl (fun k =>
-        HasConj.conj (B.a s x b b') * (E b (o * Kt.Dl + k) * (W.a s t o (ok' / Kt.Dr) * Kt.a t x k (ok' % Kt.Dr))))))))))
+        HasConj.conj (B.a s x b b') * (E.get b (o * Kt.Dl + k) * (W.a s t o (ok' / Kt.Dr) * Kt.a t x k (ok' % Kt.Dr))))))))))
 
-def env3L : List (Site K) → List (Site K) → List (Site K) → (Nat → Nat → K) → (Nat → Nat → K)
+def env3L : List (Site K) → List (Site K) → List (Site K) → Mat K → Mat K
   | B :: Bs, W :: Ws, Kt :: Ks, E => env3L Bs Ws Ks (env3StepL B W Kt E)
   | _, _, _, E => E
 
-def env3StepR (B W Kt : Site K) (E : Nat → Nat → K) : Nat → Nat → K :=
-  tab2 (W.Dl * Kt.Dl) B.Dl (fun ok b =>
+def env3StepR (B W Kt : Site K) (E : Mat K) : Mat K :=
+  mkMat (W.Dl * Kt.Dl) B.Dl (fun ok b =>
     sumN B.dk (fun s => sumN W.db (fun t => sumN B.db (fun x =>
       sumN B.Dr (fun b' => sumN W.Dr (fun o' => sumN Kt.Dr (fun k' =>
-        (W.a s t (ok / Kt.Dl) o' * Kt.a t x (ok % Kt.Dl) k') * (E (o' * Kt.Dr + k') b' * HasConj.conj (B.a s x b b')))))))))
+        (W.a s t (ok / Kt.Dl) o' * Kt.a t x (ok % Kt.Dl) k') * (E.get (o' * Kt.Dr + k') b' * HasConj.conj (B.a s x b b')))))))))
 
 /-- right three-layer environment; `β` = boundary index of the operator on its last bond (`0` for open MPOs) -/
-def env3R (β : Nat) : List (Site K) → List (Site K) → List (Site K) → (Nat → Nat → K)
-  | B :: Bs, W :: Ws, Kt :: Ks => env3StepR B W Kt (env3R β Bs Ws Ks)
-  | _, _, _ => fun ok b => delta ok β * delta b 0
+def env3R (Dβ β : Nat) : List (Site K) → List (Site K) → List (Site K) → Mat K
+  | B :: Bs, W :: Ws, Kt :: Ks => env3StepR B W Kt (env3R Dβ β Bs Ws Ks)
+  | _, _, _ => mkMat Dβ 1 (fun ok b => delta ok β * delta b 0)
 
 /-- `⟨bra|op|ket⟩` closed on the bond left of site `n` with operator boundary indices `α` (left) and `β` (right) -/
 def measure3At (α β n : Nat) (bra op ket : State K) : K :=
-  let L := env3L (bra.sites.take n) (op.sites.take n) (ket.sites.take n) (fun b ok => delta b 0 * delta ok α)
-  let R := env3R β (bra.sites.drop n) (op.sites.drop n) (ket.sites.drop n)
-  sumN (bondDim bra.sites n) (fun b => sumN (bondDim op.sites n * bondDim ket.sites n) (fun ok => L b ok * R ok b))
+  let D0 := bondDim op.sites 0 * bondDim ket.sites 0
+  let DN := bondDim op.sites op.sites.length * bondDim ket.sites ket.sites.length
+  let L := env3L (bra.sites.take n) (op.sites.take n) (ket.sites.take n) (mkMat 1 D0 (fun b ok => delta b 0 * delta ok α))
+  let R := env3R DN β (bra.sites.drop n) (op.sites.drop n) (ket.sites.drop n)
+  sumN (bondDim bra.sites n) (fun b => sumN (bondDim op.sites n * bondDim ket.sites n) (fun ok => L.get b ok * R.get ok b))
 
 /-- `EnvParent_3.measure(bd=(n-1,n))` for one operator; a periodic operator is closed by the trace over its
 boundary bond (`EnvParent_3_pbc`) -/
